@@ -1,0 +1,7 @@
+//go:build verif
+
+// Contracts for package ciphersuite (comment-only; read by /verif/vc).
+package ciphersuite
+
+// Hash constructors stored in cipher objects (sha1.New, sha256.New, ...) have no effect on program state.
+//@ assume-pure CBC.h
